@@ -1,7 +1,51 @@
 """Per-property configuration of bin/check: which harness areas / process drivers
 validate the model and search for failing inputs, and how many cases per tier."""
 
+ALGO_RULE = ('seeded (text, pattern, flags, slab state, representation) cases over an alphabet touching every character '
+             'class incl. cased-but-not-upper, accented, wide and space runes; patterns mostly sampled from the text; '
+             'texts 0..72000 runes, patterns 0..330; non-trivial = a match of a pattern of length >= 2 in a longer text; '
+             'distinct = distinct case lines')
+ALGO_TRUST = ['Go unicode tables (dumped from the runtime on every run and used as the model oracle)',
+              'the functional model (Model/Algo.lean), the array-faithful slab model (Model/AlgoSlab.lean) and the '
+              'implementation are compared case by case; only the generic slab lemma and the listed theorems are proved']
+
 PROPS = {
+    'C02': dict(
+        areas=[('algo', 20000, 3000000)],
+        rule=ALGO_RULE, trusted=ALGO_TRUST,
+        level_text='Lean 4 theorems: the witness judgement applied to every implementation answer is List.Sublist / a '
+                   'position-wise embedding; the slab guard keeps int16 cells in range for the regenerated slab size; a '
+                   'successful checked run of the array-faithful V2 model implies the raw run cannot panic. The models of all '
+                   'seven match functions are tied to /repo by an in-process differential run; the executable spec (witness, '
+                   'occurrence, anchors with documented trimming; brute-force non-existence) judges every answer.',
+        level_note='Partial: soundness/completeness of each matcher for ALL inputs is not yet a Lean theorem; it is checked '
+                   'per generated case by the spec oracle. Trusted: Lean kernel, standard axioms, harness, Go unicode tables.',
+        technique='Lean 4 proof (spec = Sublist, slab lemma, overflow guard) + model/implementation correspondence with spec oracle',
+    ),
+    'C03': dict(
+        areas=[('algo', 20000, 3000000)],
+        rule=ALGO_RULE, trusted=ALGO_TRUST,
+        level_text='Lean 4 theorems (by kernel evaluation) that the scoring constants, the per-scheme 128-entry class table and '
+                   '7x7 bonus matrix regenerated from /repo on every run equal the documented values / the model, and that '
+                   'bonusFor obeys the documented rules for all class pairs and all scheme values. Scores are compared, per '
+                   'case, with refV2 (the recurrence evaluated over the whole line, no window, no slab, no fast path) and '
+                   'with the documented alignment score of the reported occurrence.',
+        level_note='Partial: score = refV2 for ALL inputs is not yet a Lean theorem (checked per case). Known findings: F11, F14.',
+        technique='Lean 4 proof (regenerated tables by decide, bonus rules) + correspondence against a reference recurrence',
+    ),
+    'C05': dict(
+        areas=[('algo', 20000, 2000000)],
+        rule=ALGO_RULE + '; `pure` cases run one (line, term) under every slab state (zeroed, seeded junk, preceding call '
+             'history, nil), both representations and with/without positions',
+        trusted=ALGO_TRUST,
+        level_text='Lean 4 theorem for every program over scratch memory: if the checked run (no read of a cell not written '
+                   'by this call, no index out of range) succeeds then the raw run returns the same value for every slab '
+                   'content; instantiated to FuzzyMatchV2 (C05_v2_junk_independent). The driver establishes the hypothesis '
+                   'on every generated case and compares raw run = implementation over identical seeded junk.',
+        level_note='Partial: "the checked run succeeds for ALL inputs" is established per case, not yet as a theorem. '
+                   'Sub-list stability at process level is covered under C04. Known finding: F6.',
+        technique='Lean 4 proof (checked-run => junk-independent, free-monad memory model) + correspondence over dirty slabs',
+    ),
     'C18': dict(
         level_text='Lean 4 theorems over a hand-written model of src/history.go (file contents after any sequence of '
                    'sessions, cursor range, slot-editor refinement, edits never persisted), tied to /repo by an in-process '
